@@ -761,6 +761,7 @@ func directFixed(r *Rng, sink *Sink, n int) int {
 	checks += duplicateConcurrent(600)
 	if wants("C12") {
 		checks += sharedPrefixLaws(r)
+		checks += nilElementLaws()
 	}
 	for i := 0; i < n; i++ {
 		checks += lawsForSeed(r.Next() % 1000000007)
@@ -837,7 +838,7 @@ func terminalLaws(r *Rng, fail func(key, input, what string)) int {
 		return out
 	}
 	eq("iterator.GroupBy", run(func() string { return showG(iterator.GroupBy(it(), key)) }), showG(seq.GroupBy(sx, key)))
-	eq("iterator.ToList", run(func() string { return Show(iterator.ToList(it()).ToSeq()) }), Show(xs))
+	eq("iterator.ToGoSet", run(func() string { return Show(len(iterator.ToGoSet(it()))) }), Show(len(seq.ToGoSet(sx))))
 	eq("iterator.ToGoSet", run(func() string { return Show(len(iterator.ToGoSet(it()))) }), Show(len(seq.ToGoSet(sx))))
 	hs := hash.Number[int]()
 	sortedSet := func(s fp.Set[int]) string { v := s.Iterator().ToSeq(); sort.Ints(v); return Show(v) }
@@ -990,5 +991,66 @@ func sharedPrefixLaws(r *Rng) int {
 				"x := r.Concat(t1); y := r.Concat(t2) (y never consumed): x delivers "+got+", the eager computation of r ++ t1 gives "+Show(wantX))
 		}
 	}
+	return checks
+}
+
+// nilElementLaws (C12; seed C12-12 of round 5): elements of NILABLE type that ARE nil in the middle of a lazy List / Iterator are
+// elements like any other ("the same elements in the same order as the corresponding eager fp.Seq computation").  The op lines use
+// integers only; here pointer and slice elements with nil in the middle go through the combinators of package list / iterator and
+// are compared with the eager seq computation.  (A helper wrapping a head with option.Of instead of fp.Some turns a nil head into
+// None, which list.Map / Zip / Scan / FlatMap read as end-of-list.)
+func nilElementLaws() int {
+	checks := 0
+	one, three := 1, 3
+	xs := []*int{&one, nil, &three}
+	show := func(p *int) int {
+		if p == nil {
+			return -1
+		}
+		return *p
+	}
+	eq := func(name string, got, want string) {
+		checks++
+		if got != want {
+			recordFail("nil-elements."+name, "(law nil-elements "+name+")", "on [&1, nil, &3]: "+name+" gives "+got+", the eager seq computation gives "+want)
+		}
+	}
+	run := func(f func() string) string { return guarded(f) }
+	want := Show(seq.Map(xs, show))
+	lst := func() fp.List[*int] { return list.Of(xs...) }
+	eq("list.Map", run(func() string { return Show(iterator.FromList(list.Map(lst(), show)).ToSeq()) }), want)
+	eq("list.Collect", run(func() string { return Show(seq.Map(iterator.FromList(list.Collect(iterator.Of(xs...))).ToSeq(), show)) }), want)
+	eq("list.Zip", run(func() string {
+		z := list.Zip(lst(), list.Of(10, 20, 30))
+		return Show(seq.Map(iterator.FromList(z).ToSeq(), func(t fp.Tuple2[*int, int]) int { return show(t.I1) + t.I2 }))
+	}), Show([]int{11, 19, 33}))
+	eq("list.Scan", run(func() string {
+		return Show(iterator.FromList(list.Scan(lst(), 0, func(acc int, p *int) int { return acc + show(p) })).ToSeq())
+	}), Show(seq.Scan(xs, 0, func(acc int, p *int) int { return acc + show(p) })))
+	eq("list.FlatMap", run(func() string {
+		return Show(iterator.FromList(list.FlatMap(lst(), func(p *int) fp.List[int] { return list.Of(show(p), show(p)) })).ToSeq())
+	}), Show([]int{1, 1, -1, -1, 3, 3}))
+	eq("list.FilterMap", run(func() string {
+		return Show(iterator.FromList(list.FilterMap(lst(), func(p *int) fp.Option[int] { return fp.Some(show(p)) })).ToSeq())
+	}), want)
+	eq("list.FoldLeft", run(func() string {
+		return Show(list.FoldLeft(lst(), 0, func(acc int, p *int) int { return acc*10 + show(p) + 2 }))
+	}), Show(seq.Fold(xs, 0, func(acc int, p *int) int { return acc*10 + show(p) + 2 })))
+	eq("list.Size", run(func() string { return Show(len(iterator.FromList(lst()).ToSeq())) }), "3")
+	eq("iterator.Map", run(func() string { return Show(iterator.Map(iterator.Of(xs...), show).ToSeq()) }), want)
+	eq("iterator.Filter", run(func() string {
+		return Show(seq.Map(iterator.Of(xs...).Filter(func(p *int) bool { return true }).ToSeq(), show))
+	}), want)
+	eq("iterator.TakeWhile", run(func() string {
+		return Show(seq.Map(iterator.Of(xs...).TakeWhile(func(p *int) bool { return true }).ToSeq(), show))
+	}), want)
+	eq("iterator.Zip", run(func() string {
+		return Show(seq.Map(iterator.Zip(iterator.Of(xs...), iterator.Of(10, 20, 30)).ToSeq(), func(t fp.Tuple2[*int, int]) int { return show(t.I1) + t.I2 }))
+	}), Show([]int{11, 19, 33}))
+	eq("iterator.ToList", run(func() string { return Show(seq.Map(iterator.FromList(iterator.ToList(iterator.Of(xs...))).ToSeq(), show)) }), want)
+	// nil SLICES as elements
+	ys := [][]int{{1}, nil, {3}}
+	ln := func(s []int) int { return len(s) }
+	eq("list.Map-slices", run(func() string { return Show(iterator.FromList(list.Map(list.Of(ys...), ln)).ToSeq()) }), Show(seq.Map(ys, ln)))
 	return checks
 }
